@@ -5,6 +5,7 @@
 //      y := 1; x := 4*y; assume(2*w <= x) must allow w = 2.
 //  P2  x := y / 4 with N = 2 recorded x := G(y) = y/2.
 //      y := 8; x := y/4 = 2.
+//  P4, P5 (F59) rewrites that mention x itself read the value the base domain has already overwritten.
 //  P3  x := y / 2 assigned x := G(y) and returned: G(x) kept the quotient of the PREVIOUS value of x.
 //      x := 8; x := y/2 (y in [2,3]); assume(x <= 2*w) must allow w = 1.
 #include "crab_lang.hpp"
@@ -43,5 +44,18 @@ int main() {
     d.apply(crab::domains::OP_SDIV, x, y, z_number(2));       // x = 1, G(x) must not stay 4
     d += (x <= z_number(2) * w);                              // w >= 1
     must_contain("P3", d, w, 1); }
+  { // P4 (F59): x := 2*x - 2 rewrote G(x) := x - 1 AFTER the base domain had overwritten x (new value read)
+    dom_t d;
+    d += (x >= z_number(4)); d += (x <= z_number(6));
+    z_lin_exp_t e = z_number(2) * x - z_number(2);
+    d.assign(x, e);                                            // x in [6,10]
+    d += (x <= z_number(2) * w);                               // w >= x/2 >= 3
+    must_contain("P4", d, w, 3); }
+  { // P5 (F59): x := x * 4 computed G(x) := x * 2 from the NEW x
+    dom_t d;
+    d += (x >= z_number(1)); d += (x <= z_number(2));
+    d.apply(crab::domains::OP_MULTIPLICATION, x, x, z_number(4)); // x in [4,8]
+    d += (x <= z_number(2) * w);                               // w >= 2
+    must_contain("P5", d, w, 2); }
   return bad ? 1 : 0;
 }
